@@ -241,6 +241,10 @@ for _k, _c in EXTRA9.items():
     CLAIMS[_k] = (c0 + _c, n0, t0)
 
 EXTRA10 = {
+ "C01": "; no %v formatting of pointer-carrying structs in consensus scope",
+ "C08": "; the grant's own start reaches the merge (C09 R20)",
+ "C09": "; ConvertVestingAccount is judged by the schedule (C08 R8); the grant's own start reaches the merge",
+ "C11": "; ConvertVestingAccount is judged by the schedule (C08 R8)",
  "C19": "; the zero-height export removes hand-jailed validators from the power index; collecting callbacks on export paths list every element",
  "C18": "; wire integers are nil-tested before use in the stateless validation; the indexer recomputes the hash; the admission check's intrinsic gas takes the transaction's own access list",
  "C17": "; the zero-height export rebases EnableHeight; every ante route records declared gas",
